@@ -23,3 +23,64 @@ package shelley
 //@   ensures checked: err == nil && !old(len(config) > 0 && config[0].SkipBodyHashValidation) ==>
 //@       called(ValidateBlockBodyHash) && callres(ValidateBlockBodyHash) == nil && callarg(ValidateBlockBodyHash, 0) == data &&
 //@       callarg(ValidateBlockBodyHash, 3) == 4 && called(BlockBodyHash) && callarg(ValidateBlockBodyHash, 1) == callres(BlockBodyHash)
+
+// BEGIN generated C01 contracts (tools/gen_c01_contracts.py in /verif)
+// C01: a decoder that keeps its input stores exactly the bytes it was given; an identifier
+// is Blake2b-256 of the stored bytes (the cache, when set, holds that hash).
+//@ func (u *ShelleyProtocolParameterUpdate) UnmarshalCBOR(cborData) (err)
+//@   props C01
+//@   attr maxpaths 4000
+//@   attr safe off
+//@   requires recv: u != nil
+//@   ensures stored: err == nil ==> seq(u.cborData) == seq(cborData) && len(u.cborData) == len(cborData)
+
+//@ func (b *ShelleyBlockHeaderBody) UnmarshalCBOR(cborData) (err)
+//@   props C01
+//@   attr maxpaths 4000
+//@   attr safe off
+//@   requires recv: b != nil
+//@   ensures stored: err == nil ==> seq(b.cborData) == seq(cborData) && len(b.cborData) == len(cborData)
+
+//@ func (h *ShelleyBlockHeader) UnmarshalCBOR(cborData) (err)
+//@   props C01
+//@   attr maxpaths 4000
+//@   attr safe off
+//@   requires recv: h != nil
+//@   ensures stored: err == nil ==> seq(h.cborData) == seq(cborData) && len(h.cborData) == len(cborData)
+
+//@ func (b *ShelleyTransactionBody) UnmarshalCBOR(cborData) (err)
+//@   props C01
+//@   attr maxpaths 4000
+//@   attr safe off
+//@   requires recv: b != nil
+//@   ensures stored: err == nil ==> seq(b.cborData) == seq(cborData) && len(b.cborData) == len(cborData)
+
+//@ func (o *ShelleyTransactionOutput) UnmarshalCBOR(cborData) (err)
+//@   props C01
+//@   attr maxpaths 4000
+//@   attr safe off
+//@   requires recv: o != nil
+//@   ensures stored: err == nil ==> seq(o.cborData) == seq(cborData) && len(o.cborData) == len(cborData)
+
+//@ func (w *ShelleyTransactionWitnessSet) UnmarshalCBOR(cborData) (err)
+//@   props C01
+//@   attr maxpaths 4000
+//@   attr safe off
+//@   requires recv: w != nil
+//@   ensures stored: err == nil ==> seq(w.cborData) == seq(cborData) && len(w.cborData) == len(cborData)
+
+//@ func (t *ShelleyTransaction) UnmarshalCBOR(cborData) (err)
+//@   props C01
+//@   attr maxpaths 4000
+//@   attr safe off
+//@   requires recv: t != nil
+//@   ensures stored: err == nil ==> seq(t.cborData) == seq(cborData) && len(t.cborData) == len(cborData)
+
+//@ func (h *ShelleyBlockHeader) Hash() (r)
+//@   props C01
+//@   requires recv: h != nil
+//@   requires cache: h.hash == nil || *h.hash == H256(seq(h.cborData))
+//@   assigns h.hash
+//@   ensures id: r == H256(seq(h.cborData))
+//@   ensures cache: h.hash != nil && *h.hash == H256(seq(h.cborData))
+// END generated C01 contracts
